@@ -3662,7 +3662,12 @@ static size_t ZSTDv05_loadEntropy(ZSTDv05_DCtx* dctx, const void* dict, size_t d
 static size_t ZSTDv05_decompress_insertDictionary(ZSTDv05_DCtx* dctx, const void* dict, size_t dictSize)
 {
     size_t eSize;
-    U32 magic = MEM_readLE32(dict);
+    U32 magic;
+    if (dictSize < 4) {   /* too small to carry a magic number : pure content */
+        ZSTDv05_refDictContent(dctx, dict, dictSize);
+        return 0;
+    }
+    magic = MEM_readLE32(dict);
     if (magic != ZSTDv05_DICT_MAGIC) {
         /* pure content mode */
         ZSTDv05_refDictContent(dctx, dict, dictSize);
